@@ -32,6 +32,8 @@ CmpV(e) ==
   \cup Clause(IsBool(e.eq_xy) /\ IsBool(e.eq_yx) /\ e.eq_xy # e.eq_yx, "C14_EqualityNotSymmetric")
   \cup Clause(IsBool(e.eq_xy) /\ IsBool(e.ne_xy) /\ e.eq_xy = e.ne_xy, "C14_NeDoesNotNegateEq")
   \cup Clause(e.same_object /\ x.fam # "other" /\ e.eq_xy # "True", "C14_EqualityNotReflexive")
+  (* two retrievals of ONE function (or their first parameters), whatever its default and annotation values do when compared *)
+  \cup Clause(e.twins /\ (e.eq_xy # "True" \/ e.ne_xy # "False"), "C14_SameFunctionRetrievedTwiceDiffers")
   \cup Clause(decided /\ IsBool(e.eq_xy) /\ (e.eq_xy = "True") # SpecEq(x, y), "C14_EqualityDiffersFromData")
   \cup Clause(e.eq_xy = "True" /\ e.hx.ok /\ e.hy.ok /\ e.hx.id # e.hy.id, "C14_EqualObjectsHashDifferently")
   \cup Clause(x.up /\ x.fam # "other" /\ e.hx.ok # e.hx_plain_ok, "C14_HashableIffPlainCounterpartIs")
